@@ -310,7 +310,7 @@ class C08WireOracle(Oracle):
     def __init__(self):
         self.budget = None
         self.used = 0
-        self.timer_since = {"client": False, "server": False}
+        self.timer_since = {"client": 0, "server": 0}  # timeouts whose probe datagram is still owed
         self.n_calls = 0
         self.n_limited = 0
         self.max_excess = 0
@@ -320,13 +320,14 @@ class C08WireOracle(Oracle):
 
     def on_api_call(self, ep, name, args):
         if name == "handle_timer":
-            self.timer_since[ep.name] = True
+            self.timer_since[ep.name] += 1
         elif name == "datagrams_to_send":
             loss = ep.conn._loss
             avail = max(loss.congestion_window - loss.bytes_in_flight, 0)
             probe = ep.config.max_datagram_size if self.timer_since[ep.name] else 0
             self.budget = (ep.name, avail, probe)
             self.used = 0
+            self.credit_taken = False
             # the allowance of one probe datagram per timeout stays until a probe is actually
             # put on the wire (pacing or an empty send may defer it to a later call)
             self.n_calls += 1
@@ -352,7 +353,9 @@ class C08WireOracle(Oracle):
         allowed = max(avail, probe)
         if self.used > avail:
             self.n_limited += 1
-            self.timer_since[ep.name] = False  # the probe allowance is being used now
+            if not self.credit_taken:  # one owed probe datagram is being used now
+                self.credit_taken = True
+                self.timer_since[ep.name] = max(self.timer_since[ep.name] - 1, 0)
         if self.used > allowed:
             self.max_excess = max(self.max_excess, self.used - allowed)
             raise Violation("c08.window", "in-flight-bytes-beyond-congestion-window",
